@@ -185,6 +185,96 @@ def gen_proc(tier, seed):
     return cases
 
 
+# ---- explicit value / position literals with runs of signs and blanks (ParseInt's sign handling seen from a module)
+def sign_literals():
+    signs = [""] + ["".join(t) for n in (1, 2, 3) for t in itertools.product("+-", repeat=n)]
+    out = []
+    for d in ("5", "0", "7", "2147483647", "2147483648", "4294967295"):
+        for sg in signs:
+            out.append(sg + d)
+    for d in ("5", "0"):
+        for sg in signs[1:7]:
+            out += [sg + " " + d, " " + sg + d, sg + d + " ", d + sg, sg[0] + " " + sg[1:] + d]
+    out += signs[1:] + [" ", " 5", "5 ", " 5 ", "\t5", "5\n", "- 5", "+ 5", "5-", "5+", "5-1", "5+1", "-5-", "+-", "- -5"]
+    return sorted(set(out))
+
+
+def gen_signs(tier, seed):
+    cases = []
+    N = ("-", "-")
+    for bits in (0, 1):
+        for v in sign_literals():
+            cases.append(mod_case(bits, [("a", v, N)]))
+            cases.append(mod_case(bits, [("a", v, N), ("b", None, N)]))
+            cases.append(mod_case(bits, [("a", None, N), ("b", v, ("d", "-")), ("c", None, N)]))
+            for form in "itr":
+                cases.append("enumproc %d %s PG %s" % (bits, form, mod_case(bits, [("b", v, N), ("c", None, N)]).split()[2]))
+    return cases
+
+
+# ---- unions of enumerations (enumunion): each distinct member type keeps its own table
+def gen_union(tier, seed):
+    rnd = random.Random(seed ^ 0x0A1)
+    N = ("-", "-")
+
+    def mem(ml):
+        return mod_case(0, [(n, v, N) for n, v in ml]).split()[2]
+    cases = []
+    base = [("off", None), ("md5", None), ("sha1", None)]
+    variants = [base,
+                [("none", None), ("md5", None), ("sha1", None)],          # differs in the NAME of the 0-valued member only
+                [("off", None), ("md4", None), ("sha1", None)],           # differs in the name of the 1-valued member only
+                [("off", None), ("md5", "2"), ("sha1", "1")],             # same names, values swapped
+                [("off", "0"), ("md5", "1"), ("sha1", "2")],              # the same table written explicitly
+                [("off", None), ("md5", None), ("sha1", "3")],            # differs in one non-zero value
+                [("off", "4"), ("md5", "1"), ("sha1", "2")], [("unset", None), ("md5", None), ("sha1", None)],
+                [("off", "-1"), ("md5", None), ("sha1", None)], [("off", None), ("md5", None)], [("off", None)], [("none", None)],
+                [("zero", "0")], [("a", "0"), ("b", "0")], [("off", None), ("off", None)], [("off", "2147483648")]]
+    for a in variants:
+        for b in variants:
+            cases.append("enumunion %s %s" % (mem(a), mem(b)))
+    for t in itertools.product(variants[:8], repeat=3):
+        cases.append("enumunion %s %s %s" % tuple(mem(x) for x in t))
+    names = ["a", "b", "c", "d"]
+    for _ in range(1500 if tier == "quick" else 30000):
+        k = rnd.randint(1, 3)
+        tabs = []
+        for _j in range(rnd.randint(2, 4)):
+            nm = rnd.sample(names, k)
+            tabs.append(mem([(n, rnd.choice([None, None, "0", "1", "2"])) for n in nm]))
+        cases.append("enumunion " + " ".join(tabs))
+    return cases
+
+
+# ---- deviate replace { type enumeration|bits {...} } on a leaf that already has such a type (enumdev)
+def gen_dev(tier, seed):
+    rnd = random.Random(seed ^ 0xDE7)
+    N = ("-", "-")
+    cases = []
+    for bits in (0, 1):
+        mx = 4294967295 if bits else 2147483647
+
+        def mem(ml):
+            return mod_case(bits, [(n, v, N) for n, v in ml]).split()[2]
+        olds = [[("a", None), ("b", None), ("c", None)], [("a", "5"), ("b", "6")], [("x", None)]]
+        news = [[("a", None), ("b", None), ("c", None)], [("a", "2"), ("b", "1"), ("c", "0")], [("a", "7"), ("b", None), ("c", None)],
+                [("c", None), ("b", None), ("a", None)], [("d", None), ("e", None), ("f", None)], [("a", None), ("b", None)],
+                [("a", str(mx))], [("a", str(mx - 1)), ("b", None)], [("a", "5"), ("b", "6")], [("a", "6"), ("b", "5")], [("x", None)],
+                [("y", None)], [("x", "1")], [("a", str(mx)), ("b", None)], [("a", None), ("a", None)], [("a", "1"), ("b", "1")],
+                [("a", str(mx + 1))], [("a", "0"), ("b", None), ("c", "5"), ("d", None)]]
+        for form in "it":
+            for o in olds:
+                for n in news:
+                    cases.append("enumdev %d %s %s %s" % (bits, form, mem(o), mem(n)))
+        names = ["a", "b", "c", "d", "e"]
+        for _ in range(500 if tier == "quick" else 10000):
+            def rl():
+                k = rnd.randint(1, 4)
+                return mem([(n, rnd.choice([None, None, "0", "1", "3", "9", str(mx)])) for n in rnd.sample(names, k)])
+            cases.append("enumdev %d %s %s %s" % (bits, rnd.choice("it"), mem(rnd.choice(olds)), rl()))
+    return cases
+
+
 def gen_api(tier, seed):
     rnd = random.Random(seed ^ 0xC14)
     cases = []
@@ -232,7 +322,8 @@ def run(res, tier, seed, proof):
     acases = gen_api(tier, seed)
     ago, aml, amism, askipped = simple_run(lib, res, acases)
     rejected_then_ok = sum(1 for g in ago if "eo" in g.split()[0])
-    mcases = gen_mod(tier, seed) + gen_ext(tier, seed) + gen_proc(tier, seed)
+    mcases = gen_mod(tier, seed) + gen_ext(tier, seed) + gen_proc(tier, seed) + gen_signs(tier, seed) + gen_union(tier, seed) + \
+        gen_dev(tier, seed)
     mgo, mml, mmism, mskipped = simple_run(lib, res, mcases)
     mouts = {}
     for g in mgo:
@@ -264,12 +355,22 @@ def run(res, tier, seed, proof):
                     "maximum, valid ones) - in place, in a typedef, as a union member, and as the own member list of a type that RESTRICTS "
                     "a typedef (directly and through a second typedef), each with 6 histories of Process / GetModule calls on the same "
                     "Modules: every call must report an error iff the model's loop records one, and the table after the last call is the "
-                    "model's for the listed members" % (len(VALUES), len(API_ENUM), len(API_BITS), len(SUBS), len(MODVALS)),
+                    "model's for the listed members.  Explicit value/position literals with every string of 0-3 signs before the digits, signs "
+                    "after/inside the digits and blanks around them (%d literals) through enummod/enumproc.  Unions of 2-3 enumerations "
+                    "(enumunion: 16 variants of a three-member enumeration differing in one name - at the 0-valued member or another - in "
+                    "one value, in size, written explicitly; all pairs, all triples of 8; random): every distinct member type keeps its "
+                    "table, equal ones are listed once.  deviate replace of an enumeration/bits type by another (enumdev: 3 old x 18 new "
+                    "member lists incl. same names at other positions, other names, the maximum, invalid ones; old type in place or via a "
+                    "typedef): the deviated leaf has the replacement's table" % (len(VALUES), len(API_ENUM), len(API_BITS), len(SUBS), len(MODVALS),
+                                                                                  len(sign_literals())),
                mismatches=mism + amism + mmism, skipped_unmodelled=skipped + askipped + mskipped,
                distribution=dict(impl_outcomes=outs, api_cases=len(acases), api_sequences_with_an_accepted_call_after_a_rejected_one=rejected_then_ok,
                                  api_cases_editing_a_returned_container=sum(1 for g in ago if "r" in g.split()[0][4:]),
                                  substatement_cases=len(mcases), extension_cases=sum(1 for c in mcases if c.startswith("enumext")),
                                  process_history_cases=sum(1 for c in mcases if c.startswith("enumproc")),
+                                 union_cases=sum(1 for c in mcases if c.startswith("enumunion")),
+                                 union_cases_with_two_or_more_tables=sum(1 for g in mgo if g.startswith("ok ") and " | " in g),
+                                 deviation_cases=sum(1 for c in mcases if c.startswith("enumdev")),
                                  restriction_cases=sum(1 for c in mcases if c.startswith("enumproc") and c.split()[2] in "rR"),
                                  process_histories_with_error_every_time=sum(1 for g in mgo if g.startswith("steps=ee")), substatement_impl_outcomes=mouts,
                                  substatement_cases_with_an_obsolete_member=sum(1 for c in mcases if c.startswith("enummod") and "o" in "".join(x.split(":", 2)[2] for x in c.split()[2].split(",")))),
